@@ -14,17 +14,18 @@ def read_bytes(path):
         return f.read()
 
 
-def failed_dump(sym, fmt, position, attr, rule, maxlen, k, preexisting, any_value=False, linked=False):
+def failed_dump(sym, fmt, position, attr, rule, maxlen, k, preexisting, any_value=False, linked=False, name_len=12):
     """a valid object was written to `path`; then one field (anywhere) becomes invalid and dump(path) is called again.
     any_value: the field gets an arbitrary value, inside or outside its documented domain - whatever the reason a dump is
     refused for (also a writer that is stricter than the documented rule), the destination must be left alone"""
     top, holder = C06.locate(fmt, position, k)
     d = sym.scratch_dir()
-    path = os.path.join(d, "metadata.out")
+    # name_len: the destination's own name is up to NAME_MAX (255) characters long - no sibling with a longer name can be created next to it
+    path = os.path.join(d, "metadata.out" if name_len == 12 else "m" * (name_len - 4) + ".out")
     if preexisting:
         top.dump(path)
         if linked:
-            os.link(path, path + ".hardlink")          # compose tooling hardlinks metadata into other trees
+            os.link(path, os.path.join(d, "hardlinked.copy"))          # compose tooling hardlinks metadata into other trees
     before = read_bytes(path)
     kind = sym.choice("kind", KINDS)
     v = make_value(sym, kind, "v", maxlen, rule)
@@ -48,7 +49,7 @@ def failed_dump(sym, fmt, position, attr, rule, maxlen, k, preexisting, any_valu
         sym.check("previous-file-intact", after == before)
         sym.check("previous-file-not-empty", after is not None and len(after) > 0)
         if linked:
-            sym.check("hardlinked-copy-intact", read_bytes(path + ".hardlink") == before)
+            sym.check("hardlinked-copy-intact", read_bytes(os.path.join(d, "hardlinked.copy")) == before)
     else:
         sym.check("no-file-created", after is None)
 
@@ -105,6 +106,8 @@ def jobs(tier, seed):
             for pre in ((True, False) if big or (i + seed) % 3 == 0 else (True,)):
                 out.append({"harness": "failed_dump", "params": {"fmt": fmt, "position": position, "attr": attr, "rule": rule, "maxlen": maxlen, "k": k,
                                                                 "preexisting": pre, "linked": bool(pre and (big or (i + len(position) + seed) % 3 == 1))}})
+                if (i + len(position) + len(out) + seed) % 4 == 0:
+                    out[-1]["params"]["name_len"] = [255, 250, 246, 241][(i + len(out)) % 4]
     def add_any(fmt, position, fields):
         for i, (attr, rule, maxlen) in enumerate(fields):
             if big or (i + seed) % 2 == 0 or fmt == "discinfo":
@@ -154,6 +157,7 @@ META = {
         "i.e. each nested validator is made to fail, whether the top-level check or only a nested writer detects it",
         "any-value jobs: the same positions with an arbitrary value (strings up to 6 characters, integers, booleans, None, containers), "
         "inside or outside the documented domain: every refusal, for whatever reason, must leave the destination alone",
+        "in a quarter of the jobs the destination's file name is 241-255 characters long (NAME_MAX and just below: no longer-named sibling can be created)",
         "treeinfo (its own dump method): release, base product, tree, media and variant fields of the C06 base tree",
     ],
 }
